@@ -280,6 +280,12 @@ void chk_run_case(uint64_t seed, long c, bool is_sweep)
                 big_ubuf = chance(50); qmark = chance(30); tgt_disabled = chance(25);
                 if (chance(12)) { ovf = true; kind = K_READ; nvars = 2; ovf_digits = 1 + (int)rn(10); ovf_delta = (int)rn(6) - 2; tight = false; }
         }
+        if (!is_sweep) for (int i = 0; i < slen; i++) if (script[i] == 99 || script[i] == -7) {      /* values outside the enumeration: near it, congruent to a member modulo 2^8 / 2^16, the extremes of int */
+                static const int wild[] = { 99, -7, 9, 10, -2, 127, 128, 255, -128, -129, 1000, 65535, 65536, -65536, 0x7fffffff, (int)0x80000000u };
+                unsigned r = rn(24);
+                script[i] = r < 16 ? wild[r] : r < 20 ? 256 * (1 + (int)rn(3)) + (int)rn(10) - 1 : r < 22 ? -256 + (int)rn(10) - 1 : 65536 + (int)rn(10) - 1;
+                CNT("return_values_outside_the_enumeration");
+        }
         if (fsm == FSM_U) for (int i = 0; i < slen; i++) if (script[i] == CAT_RETURN_STATE_HOLD) script[i] = CAT_RETURN_STATE_OK;   /* HOLD from an event handler is an unspecified cell (DESIGN 3.2) */
         run_cell();
 }
